@@ -44,6 +44,7 @@ type c17Scenario struct {
 	ID      int
 	DelayMs int
 	TxBuf   bool
+	Modem   bool // a transport that queues writes and transmits later (reports its whole queue as transmit buffer)
 	Sizes   map[string]int // MID -> compressed size
 	AtoB    []string       // MIDs offered by A
 	BtoA    []string
@@ -90,6 +91,72 @@ func (c *pacedConn) Write(b []byte) (int, error) {
 	return c.memConn.Write(b)
 }
 
+// modemConn queues what is written and transmits it later (key-up delay, then bursts): the
+// transmit-buffer length it reports includes the B2F framing, so early in a transfer it exceeds
+// the number of payload bytes taken (seeded change C17-a reported a negative count then).
+type modemConn struct {
+	*memConn
+	mu    sync.Mutex
+	cond  *sync.Cond
+	queue []byte
+	keyUp time.Duration
+	once  sync.Once
+}
+
+func newModemConn(c *memConn, keyUp time.Duration) *modemConn {
+	m := &modemConn{memConn: c, keyUp: keyUp}
+	m.cond = sync.NewCond(&m.mu)
+	return m
+}
+
+func (m *modemConn) drain() {
+	for {
+		m.mu.Lock()
+		for len(m.queue) == 0 {
+			m.cond.Wait()
+		}
+		m.mu.Unlock()
+		time.Sleep(m.keyUp)
+		for {
+			m.mu.Lock()
+			n := len(m.queue)
+			if n > 256 {
+				n = 256
+			}
+			chunk := append([]byte{}, m.queue[:n]...)
+			m.mu.Unlock()
+			if n == 0 {
+				break
+			}
+			m.memConn.Write(chunk)
+			m.mu.Lock()
+			m.queue = m.queue[n:]
+			m.cond.Broadcast()
+			m.mu.Unlock()
+			time.Sleep(15 * time.Millisecond)
+		}
+	}
+}
+
+func (m *modemConn) Write(b []byte) (int, error) {
+	m.once.Do(func() { go m.drain() })
+	m.mu.Lock()
+	m.queue = append(m.queue, b...)
+	m.cond.Broadcast()
+	m.mu.Unlock()
+	return len(b), nil
+}
+func (m *modemConn) Close() error { m.Flush(); return m.memConn.Close() }
+func (m *modemConn) TxBufferLen() int { m.mu.Lock(); defer m.mu.Unlock(); return len(m.queue) }
+func (m *modemConn) Flush() error {
+	m.mu.Lock()
+	for len(m.queue) > 0 {
+		m.cond.Wait()
+	}
+	m.mu.Unlock()
+	return nil
+}
+
 type pacedTxConn struct{ *pacedConn }
 
 func (c pacedTxConn) TxBufferLen() int { c.mu.Lock(); defer c.mu.Unlock(); return c.last / 2 }
@@ -104,6 +171,9 @@ func c17Child(args []string) {
 	for i := 0; i < n; i++ {
 		r := NewRng(seed + int64(i)*7919)
 		sc := &c17Scenario{ID: i, DelayMs: []int{0, 2, 30, 110, 300}[i%5], TxBuf: i%2 == 1, Sizes: map[string]int{}}
+		if i%6 == 2 {
+			sc.Modem, sc.TxBuf, sc.DelayMs = true, true, 0
+		}
 		mk := func(from string) (msgs []*fbb.Message, mids []string) {
 			for k := r.Intn(3); k >= 0; k-- {
 				mid := fmt.Sprintf("S%dM%s", i, r.Mid())
@@ -151,7 +221,9 @@ func c17Child(args []string) {
 				var err error
 				var stats fbb.TrafficStats
 				done, p := runWithTimeout(40*time.Second, func() {
-					if sc.TxBuf {
+					if sc.Modem {
+						stats, err = s.Exchange(newModemConn(c.memConn, 320*time.Millisecond))
+					} else if sc.TxBuf {
 						stats, err = s.Exchange(pacedTxConn{c})
 					} else {
 						stats, err = s.Exchange(c)
@@ -253,9 +325,12 @@ func runC17(ctx *Ctx) error {
 	var lines []string
 	var cases []interface{}
 	for _, sc := range scs {
-		desc := fmt.Sprintf("id=%d delay=%dms txbuf=%v A->B=%v B->A=%v", sc.ID, sc.DelayMs, sc.TxBuf, sc.AtoB, sc.BtoA)
+		desc := fmt.Sprintf("id=%d delay=%dms txbuf=%v modem=%v A->B=%v B->A=%v", sc.ID, sc.DelayMs, sc.TxBuf, sc.Modem, sc.AtoB, sc.BtoA)
 		res.Traces++
-		res.Eval(desc, sc.DelayMs >= 30)
+		res.Eval(desc, sc.DelayMs >= 30 || sc.Modem)
+		if sc.Modem {
+			res.Count("modem-transport")
+		}
 		res.Count(fmt.Sprintf("delay-%dms", sc.DelayMs))
 		for _, sd := range []struct {
 			name string
